@@ -79,14 +79,17 @@ def run_unit(unit, tier, want_props=None, logdir=None):
         o = Obligation("native:%s:%s" % (unit.name, t.name), t.owner, t.text, t.props, NATIVE_BACKEND, kind="bounded",
                        bound=t.bound.format(**params))
         o.time_s = wall / max(1, len(ts))
-        m = re.search(r"^test \S*verif_native::%s \.\.\. (\w+)" % re.escape(t.name), out, re.M)
-        # with --nocapture the verdict may be separated from the name by the test's own output
-        verdict = m.group(1) if m else None
-        if verdict is None:
-            if re.search(r"^\s+\S*verif_native::%s$" % re.escape(t.name), out, re.M):   # listed under "failures:"
-                verdict = "FAILED"
-            elif re.search(r"verif_native::%s \.\.\. " % re.escape(t.name), out) and "test result: ok" in out:
-                verdict = "ok"
+        # verdicts: with --nocapture the "test x ... ok" lines are interleaved with the tests' own output, so take the
+        # failed set from the final "failures:" list and require the test to have been started at all
+        failed_block = out.rsplit("\nfailures:\n", 1)[1] if "\nfailures:\n" in out else ""
+        failed_names = set(re.findall(r"^\s+(\S*verif_native::\w+)$", failed_block, re.M))
+        started = re.search(r"verif_native::%s\b" % re.escape(t.name), out) is not None
+        if any(n.endswith("verif_native::" + t.name) for n in failed_names):
+            verdict = "FAILED"
+        elif started and ran:
+            verdict = "ok"
+        else:
+            verdict = None
         cex = sorted(set(l for l in re.findall(r"^VERIF-CEX .*$", out, re.M) if (" %s " % t.name) in l + " "))
         if rc == -9:
             o.status, o.detail = UNDECIDED, "timeout"
